@@ -228,7 +228,7 @@ CHECKS['C12'] = (
     'complete enumeration of token strings up to a length bound and of single/double token edits of the .kg corpus '
     'through the real parser, with a call-count budget, double parse and twin evaluation',
     'Every concatenation of <= 2 (quick) / <= 3 (thorough) tokens of a 54-token alphabet covering every lexeme class, '
-    'in the default module and inside a module; every single token edit of every corpus line (thorough: double edits '
+    'in the default module and inside a module; every single token edit of every corpus line (quick: of one representative per token skeleton among the hand-written lines of <= 24 tokens; thorough also: double edits '
     'of one representative per token skeleton); generated long inputs. Per case: Python-level calls counted against '
     '200*(n+2)^2 under a watchdog; second parse must end the same way with a structurally identical tree; the first '
     'tree must be unchanged; both trees evaluate to the same outcome in twin interpreters.',
